@@ -736,8 +736,10 @@ fn define_ref(ctx: &Context, ref_uri: &str) -> Result<()> {
     if !ctx.been_seen(ref_uri) {
         ctx.mark_seen(ref_uri);
         let resource = ctx.lookup_resource(ref_uri)?;
-        let resolved_schema = compile_resource(ctx, resource)?;
-        ctx.insert_ref(ref_uri, resolved_schema);
+        ctx.enter_ref()?;
+        let resolved_schema = compile_resource(ctx, resource);
+        ctx.leave_ref();
+        ctx.insert_ref(ref_uri, resolved_schema?);
     }
     Ok(())
 }
